@@ -619,6 +619,64 @@ func diffCounts(want, got map[string]int) string {
 // nextFirstAccess: all instances shooting a scenario share its [next] counters, and at the start
 // of a run they all resolve the same path for the first time at the same moment. Over many
 // fresh scenarios, 8 concurrent first resolutions must still hand out rows 0…7, each once.
+// nextNestedPaths: [next] keeps one counter per path. Two paths that differ only in an explicit
+// index of a parent list (shops[0].items[next], shops[1].items[next]) are different paths: each
+// hands out its own rows 0,1,2,… in turn, shot after shot.
+func nextNestedPaths(res *vkit.Result) {
+	_ = vkit.WriteMemAt("/c15/nested.json", []byte(`{"shops":[{"items":["n0","n1","n2","n3"]},{"items":["s0","s1","s2","s3"]}],"plain":["p0","p1","p2","p3"]}`))
+	yaml := `variable_sources:
+  - type: "file/json"
+    name: "catalog"
+    file: "/c15/nested.json"
+requests:
+  - name: "r"
+    method: "GET"
+    uri: "/"
+    headers: {}
+    preprocessor:
+      mapping: {"a": "source.catalog.shops[0].items[next]", "b": "source.catalog.shops[1].items[next]", "c": "source.catalog.plain[next]"}
+scenarios:
+  - name: "s"
+    requests: ["r"]
+`
+	_ = vkit.WriteMemAt("/c15/nested.yaml", []byte(yaml))
+	defer vkit.RemoveMem("/c15/nested.yaml")
+	defer vkit.RemoveMem("/c15/nested.json")
+	c := map[string]any{"probe": "shops[0].items[next], shops[1].items[next] and plain[next] resolved by one instance, 8 shots"}
+	p, err := vkit.NewProvider(map[string]any{"type": "http/scenario", "file": "/c15/nested.yaml", "limit": 1})
+	if err != nil {
+		res.Inconclusive(true, "nested next probe: provider rejected: %v", err)
+		return
+	}
+	ctx, cancel := context.WithCancel(context.Background())
+	done := make(chan error, 1)
+	go func() { done <- p.Run(ctx, core.ProviderDeps{Log: vkit.NopLog()}) }()
+	a, ok := p.Acquire()
+	cancel()
+	<-done
+	sc, isSc := a.(*httpscenario.Scenario)
+	if !ok || !isSc || len(sc.Requests) == 0 || sc.Requests[0].Preprocessor == nil {
+		res.Inconclusive(true, "nested next probe: no scenario ammo with a preprocessor (%T)", a)
+		return
+	}
+	pre := sc.Requests[0].Preprocessor
+	vars := sc.VariableStorage.Variables()
+	var got, want []string
+	for k := 0; k < 8; k++ {
+		out, err := pre.Process(map[string]any{"source": vars})
+		if err != nil {
+			res.Violate("C15/next/nested-paths", fmt.Sprintf("shot %d: %v", k, err), c)
+			return
+		}
+		got = append(got, fmt.Sprintf("%v/%v/%v", out["a"], out["b"], out["c"]))
+		want = append(want, fmt.Sprintf("n%d/s%d/p%d", k%4, k%4, k%4))
+	}
+	if fmt.Sprint(got) != fmt.Sprint(want) {
+		res.Violate("C15/next/nested-paths", fmt.Sprintf("rows handed out shot by shot: %v, want %v", got, want), c)
+	}
+	res.Eval("next-nested-paths", true)
+}
+
 func nextFirstAccess(res *vkit.Result, rounds int) {
 	_ = vkit.WriteMemAt("/c15/next.csv", []byte("0,a\n1,b\n2,c\n3,d\n4,e\n5,f\n6,g\n7,h\n8,i\n9,j\n"))
 	yaml := `variable_sources:
@@ -723,6 +781,7 @@ func main() {
 		runCase(res, genCase(rng, inst), i)
 	}
 	nextFirstAccess(res, vkit.N(2500, 40000))
+	nextNestedPaths(res)
 	vkit.CheckRaceLog(res, "C15")
 	if res.Counter("shots_judged") < 100 || res.Counter("scripted_failures") < 20 || res.Counter("pauses_judged") < 10 {
 		res.Inconclusive(true, "too little observed: %d shots, %d scripted failures, %d pauses", res.Counter("shots_judged"), res.Counter("scripted_failures"), res.Counter("pauses_judged"))
